@@ -2,8 +2,9 @@ package prism
 
 import (
 	"image"
-	"image/color"
 	"image/draw"
+
+	"github.com/mandykoh/prism/zzverif/img"
 )
 
 var verifC15Geoms = 3
@@ -15,97 +16,6 @@ func verifKind() int {
 		return verifC15Kind
 	}
 	return verifChoice(verifC15Srcs)
-}
-
-type VerifGeom struct {
-	R      image.Rectangle // bounds of the image given to the helper
-	Parent image.Rectangle // bounds of the allocated parent (== r when not a sub-image)
-}
-
-var VerifGeoms = []VerifGeom{
-	{image.Rect(0, 0, 2, 2), image.Rect(0, 0, 2, 2)},
-	{image.Rect(-2, 3, -1, 5), image.Rect(-2, 3, -1, 5)},     // 1x2, negative origin
-	{image.Rect(1, 1, 3, 2), image.Rect(0, 0, 4, 3)},          // 2x1 sub-image, stride > width
-	{image.Rect(3, -2, 3, 0), image.Rect(3, -2, 3, 0)},        // empty (zero width)
-	{image.Rect(0, 0, 1, 1), image.Rect(0, 0, 1, 1)},          // 1x1
-	{image.Rect(5, 5, 6, 8), image.Rect(4, 4, 8, 9)},          // 1x3 sub-image
-	{image.Rect(0, 0, 3, 1), image.Rect(0, 0, 3, 1)},          // 3x1
-	{image.Rect(-1, -1, 1, 1), image.Rect(-2, -2, 2, 2)},      // 2x2 sub-image around the origin
-}
-
-func verifFill(pix []byte) {
-	copy(pix, verifBytes(len(pix)))
-}
-
-// verifSource builds an image of the chosen standard-library type with the given
-// geometry, every byte of pixel storage symbolic, and returns it together with
-// its backing storage (to check that the helper does not modify it).
-func VerifSource(kind int, g VerifGeom) (image.Image, [][]byte) {
-	sub := func(img interface {
-		SubImage(image.Rectangle) image.Image
-	}) image.Image {
-		return img.SubImage(g.R)
-	}
-	switch kind {
-	case 0:
-		m := image.NewRGBA(g.Parent)
-		verifFill(m.Pix)
-		return sub(m), [][]byte{m.Pix}
-	case 1:
-		m := image.NewNRGBA(g.Parent)
-		verifFill(m.Pix)
-		return sub(m), [][]byte{m.Pix}
-	case 2:
-		m := image.NewRGBA64(g.Parent)
-		verifFill(m.Pix)
-		return sub(m), [][]byte{m.Pix}
-	case 3:
-		m := image.NewNRGBA64(g.Parent)
-		verifFill(m.Pix)
-		return sub(m), [][]byte{m.Pix}
-	case 4:
-		m := image.NewGray(g.Parent)
-		verifFill(m.Pix)
-		return sub(m), [][]byte{m.Pix}
-	case 5:
-		m := image.NewGray16(g.Parent)
-		verifFill(m.Pix)
-		return sub(m), [][]byte{m.Pix}
-	case 6:
-		m := image.NewCMYK(g.Parent)
-		verifFill(m.Pix)
-		return sub(m), [][]byte{m.Pix}
-	case 7:
-		pal := color.Palette{}
-		for i := 0; i < 2; i++ {
-			c := verifBytes(4)
-			pal = append(pal, color.NRGBA{c[0], c[1], c[2], c[3]})
-		}
-		m := image.NewPaletted(g.Parent, pal)
-		verifFill(m.Pix)
-		for i := range m.Pix {
-			verifAssume(m.Pix[i] < 2)
-		}
-		return sub(m), [][]byte{m.Pix}
-	case 8:
-		m := image.NewAlpha(g.Parent)
-		verifFill(m.Pix)
-		return sub(m), [][]byte{m.Pix}
-	default:
-		ratios := []image.YCbCrSubsampleRatio{image.YCbCrSubsampleRatio444, image.YCbCrSubsampleRatio422, image.YCbCrSubsampleRatio420, image.YCbCrSubsampleRatio440, image.YCbCrSubsampleRatio411, image.YCbCrSubsampleRatio410}
-		// image.NewYCbCr mis-sizes the chroma planes for negative coordinates with the
-		// 4:1:1 / 4:1:0 ratios (x/4 truncates toward zero) and the standard library
-		// itself then panics; that is not prism's: use the same shape at a positive origin
-		if g.Parent.Min.X < 0 || g.Parent.Min.Y < 0 {
-			d := image.Pt(5-g.Parent.Min.X, 5-g.Parent.Min.Y)
-			g = VerifGeom{g.R.Add(d), g.Parent.Add(d)}
-		}
-		m := image.NewYCbCr(g.Parent, ratios[(kind-9)%6])
-		verifFill(m.Y)
-		verifFill(m.Cb)
-		verifFill(m.Cr)
-		return sub(m), [][]byte{m.Y, m.Cb, m.Cr}
-	}
 }
 
 func verifSnapshot(bufs [][]byte) [][]byte {
@@ -130,9 +40,9 @@ func verifPar(rows int) int {
 
 // VerifHarness_C15_NRGBA: ConvertImageToNRGBA(img) == draw.Draw(NewNRGBA, Src).
 func VerifHarness_C15_NRGBA() {
-	g := VerifGeoms[verifChoice(verifC15Geoms)]
+	g := img.VerifGeoms[verifChoice(verifC15Geoms)]
 	kind := verifKind()
-	src, bufs := VerifSource(kind, g)
+	src, bufs := img.VerifSource(kind, g)
 	before := verifSnapshot(bufs)
 	out := ConvertImageToNRGBA(src, verifPar(g.R.Dy()))
 	verifReach("converted")
@@ -150,9 +60,9 @@ func VerifHarness_C15_NRGBA() {
 
 // VerifHarness_C15_RGBA: ConvertImageToRGBA(img) == draw.Draw(NewRGBA, Src).
 func VerifHarness_C15_RGBA() {
-	g := VerifGeoms[verifChoice(verifC15Geoms)]
+	g := img.VerifGeoms[verifChoice(verifC15Geoms)]
 	kind := verifKind()
-	src, bufs := VerifSource(kind, g)
+	src, bufs := img.VerifSource(kind, g)
 	before := verifSnapshot(bufs)
 	out := ConvertImageToRGBA(src, verifPar(g.R.Dy()))
 	verifReach("converted")
@@ -170,9 +80,9 @@ func VerifHarness_C15_RGBA() {
 
 // VerifHarness_C15_RGBA64: ConvertImageToRGBA64(img) == draw.Draw(NewRGBA64, Src).
 func VerifHarness_C15_RGBA64() {
-	g := VerifGeoms[verifChoice(verifC15Geoms)]
+	g := img.VerifGeoms[verifChoice(verifC15Geoms)]
 	kind := verifKind()
-	src, bufs := VerifSource(kind, g)
+	src, bufs := img.VerifSource(kind, g)
 	before := verifSnapshot(bufs)
 	out := ConvertImageToRGBA64(src, verifPar(g.R.Dy()))
 	verifReach("converted")
@@ -192,7 +102,7 @@ func VerifHarness_C15_RGBA64() {
 // for the non-premultiplied helper); must be reported as violated.
 func VerifHarness_C15_NegControl() {
 	m := image.NewNRGBA64(image.Rect(0, 0, 1, 1))
-	verifFill(m.Pix)
+	img.Fill(m.Pix)
 	out := ConvertImageToNRGBA(m, 1)
 	ref := image.NewRGBA(m.Bounds())
 	draw.Draw(ref, ref.Bounds(), m, m.Bounds().Min, draw.Src)
